@@ -13,36 +13,31 @@
  * 
  * \param node  root node
  */
-extern void mpt_gnode_relink(MPT_STRUCT(node) *node)
+extern void mpt_gnode_relink(MPT_STRUCT(node) *start)
 {
-	MPT_STRUCT(node) *start;
+	MPT_STRUCT(node) *node, *next;
 	
-	if (!(start = node)) {
+	if (!(node = start)) {
 		errno = EFAULT;
 		return;
 	}
-	
-	if (node->children) {
-		node->children->parent = node;
-	}
-	node = node->children;
-	
-	while (node && node != start) {
-		if (node->children) {
-			node->children->parent = node;
-			if (node->next) {
-				node->next->parent = node->parent;
-				node->next->prev = node;
-			}
-			node = node->children;
+	while (1) {
+		/* descend to first child */
+		if ((next = node->children)) {
+			next->parent = node;
+			node = next;
+			continue;
 		}
-		if (node->next) {
-			node->next->parent = node->parent;
-			node->next->prev = node;
-			node = node->next;
+		/* return to level with remaining elements, stay below start */
+		while (node != start && !node->next) {
+			node = node->parent;
 		}
-		else {
-			node = node->parent->next;
+		if (node == start) {
+			return;
 		}
+		next = node->next;
+		next->parent = node->parent;
+		next->prev = node;
+		node = next;
 	}
 }
